@@ -45,8 +45,8 @@ def outline_own_effective(feature, rule, outline):
 
 def step_status_for(outcome, wip):
     return {
-        "pass": "passed", "nest": "passed", "fail": "failed", "raise": "error", "interrupt": "error",
-        "convert": "error", "undefined": "undefined", "skip": "skipped",
+        "pass": "passed", "nest": "passed", "abort": "passed", "fail": "failed", "raise": "error", "interrupt": "error",
+        "convert": "error", "convert_key": "error", "undefined": "undefined", "skip": "skipped",
         "pending": "pending_warn" if wip else "pending",
     }[outcome]
 
@@ -195,10 +195,10 @@ def simulate(program, deselected=None):
                     step_layer = Layer("step", (name, s["uid"]))
                     hook("before_step", s["uid"], step_layer)
                     called = not step_layer.hook_failed
-                    if called and o == "interrupt":
+                    if called and o in ("interrupt", "abort"):
                         state["aborted"] = True     # whatever the after_step hook does
                     if not step_layer.hook_failed:
-                        if o not in ("undefined", "convert"):
+                        if o not in ("undefined", "convert", "convert_key"):
                             ref.calls.append((name, s["uid"]))
                             if s.get("cl"):
                                 layer.cleanups.append(("s%s" % s["uid"], s["cl"] == "raise"))
